@@ -204,6 +204,9 @@ func runCheck(args []string, opts *checkOpts) int {
 		return 2
 	}
 	timeout := 20
+	if prop.TimeoutQuick > 0 {
+		timeout = prop.TimeoutQuick
+	}
 	if tier == "thorough" {
 		timeout = 120
 	}
@@ -320,7 +323,24 @@ func runCheck(args []string, opts *checkOpts) int {
 		}
 		all = keep
 	}
-	solveAll(all, outDir, timeout, 12)
+	{
+		// obligations recorded as known findings are expected NOT to discharge: a short attempt is enough for
+		// them (what decides is the re-run with the recorded input class excluded, at the full timeout)
+		var kfObs, rest []*Oblig
+		for _, o := range all {
+			if isKnownFindingName(o.Name) && tier != "thorough" {
+				kfObs = append(kfObs, o)
+			} else {
+				rest = append(rest, o)
+			}
+		}
+		short := timeout
+		if short > 10 {
+			short = 10
+		}
+		solveAll(kfObs, outDir, short, 12)
+		solveAll(rest, outDir, timeout, 12)
+	}
 	known := loadKnown()
 	var knownLines []string
 	for _, o := range all {
